@@ -37,7 +37,7 @@ type c10Case struct {
 }
 
 type c10Run struct {
-	Mode  string `json:"mode"` // inodes | size | cancel_before | cancel_extract | cancel_inode
+	Mode  string `json:"mode"` // inodes | size | cancel_before | cancel_extract | cancel_inode | cancel_standalone | cancel_detector
 	Param int    `json:"param"`
 }
 
@@ -122,11 +122,26 @@ func (c c10Case) run(r c10Run) scanOut {
 		}
 	}
 	ex := &scanExtras{Ctx: ctx, Rec: rec}
+	// cancel_standalone / cancel_detector: Param = 2*k + v cancels inside the k-th plugin of
+	// that kind, which then returns nil (v = 0) or the context's error (v = 1)
+	onRun := func(mode string, i int) func(context.Context) error {
+		if r.Mode != mode || r.Param/2 != i {
+			return nil
+		}
+		return func(ctx context.Context) error {
+			rec.Event("CANCEL")
+			cancel()
+			if r.Param%2 == 1 {
+				return ctx.Err()
+			}
+			return nil
+		}
+	}
 	for i := 0; i < c.NStandalone; i++ {
-		ex.Standalone = append(ex.Standalone, standalone.Extractor(&recext.SAExtractor{N: fmt.Sprintf("fake/sa%d", i), Rec: rec, Pkgs: 1}))
+		ex.Standalone = append(ex.Standalone, standalone.Extractor(&recext.SAExtractor{N: fmt.Sprintf("fake/sa%d", i), Rec: rec, Pkgs: 1, OnRun: onRun("cancel_standalone", i)}))
 	}
 	for i := 0; i < c.NDetectors; i++ {
-		ex.Detectors = append(ex.Detectors, detector.Detector(&recext.Detector{N: fmt.Sprintf("fake/det%d", i), Rec: rec}))
+		ex.Detectors = append(ex.Detectors, detector.Detector(&recext.Detector{N: fmt.Sprintf("fake/det%d", i), Rec: rec, OnRun: onRun("cancel_detector", i)}))
 	}
 	return runScan(c.roots(), cfg, c.Exts, ex)
 }
@@ -227,7 +242,18 @@ func (c c10Case) decide(r c10Run, base scanOut) (nontrivial bool, err error) {
 	if seenCalls < len(base.Calls) {
 		remaining = true
 	}
-	if c.NStandalone+c.NDetectors > 0 {
+	plugins := func(evs []string) int {
+		n := 0
+		for _, e := range evs {
+			if strings.HasPrefix(e, "standalone:") || strings.HasPrefix(e, "detector:") {
+				n++
+			}
+		}
+		return n
+	}
+	// plugins run after the file-system extraction; none may start after the cancellation, so
+	// the ones of the uncancelled run that are missing here are work that remained
+	if plugins(out.Events) < plugins(base.Events) {
 		remaining = true
 	}
 	if remaining && out.Status != plugin.ScanStatusFailed {
@@ -290,6 +316,12 @@ func propC10(c c10Case) (ev.Outcome, error) {
 		}
 		for j := 1; j <= n; j++ {
 			runs = append(runs, c10Run{Mode: "cancel_inode", Param: j})
+		}
+		for k := 0; k < 2*c.NStandalone; k++ {
+			runs = append(runs, c10Run{Mode: "cancel_standalone", Param: k})
+		}
+		for k := 0; k < 2*c.NDetectors; k++ {
+			runs = append(runs, c10Run{Mode: "cancel_detector", Param: k})
 		}
 	}
 	for _, r := range runs {
